@@ -16,13 +16,17 @@ every reader state:
 * `aiger_justice_sizes` — the distribution loop of `parse()` gives each justice property exactly
   its declared number of literals.
 
-Not proved (kept visible as `…_full : Prop`): that a decimal token denotes the number written
-(`aiger_uint_exact_full`: follows from C13 `digits_exact` plus the leading-zero rule of `uint`;
-not yet composed).
+* `aiger_uint_exact` — a decimal token denotes the number written: whenever `uint` returns `v` the
+  bytes it consumed are the canonical decimal text of `v` (digits only, no leading zero) and
+  `v < 2^64` (C13 `digits_exact` composed with the leading-zero rule and the uniqueness of
+  canonical decimal text).
+
+Nothing of C06-AIGER remains `_full`.
 -/
 import Flussab.Proof.AigerParse
 import Flussab.Proof.AigerVarint
 import Flussab.Proof.AigerJustice
+import Flussab.Proof.AigerUint
 
 namespace Flussab.C06
 open Flussab Flussab.Aiger PM
@@ -212,6 +216,13 @@ theorem aiger_justice_sizes (sizes : List Nat) (fuel : Nat) (s s' : St) (js : Li
     js.map List.length = sizes :=
   justiceLitsLoop_sizes sizes fuel s _ 0 (by rw [hleft]; exact jinv_init sizes) lr (js, s') lr' h
 
+/-- `uint_exact` for the AIGER decimal token (header fields, literals, symbol indices, justice
+sizes all go through it). -/
+theorem aiger_uint_exact (lr lr' : LR) (v : Nat) (h : uint.run lr = (.ok (.ok v), lr')) :
+    ∃ rest, lr.v.rest = Writer.natDigits v ++ rest ∧ lr'.v.rest = rest ∧ v < 2 ^ 64 ∧
+      lr'.v.pos = lr.v.pos + (Writer.natDigits v).length :=
+  uint_exact lr lr' v h
+
 /-! ### non-vacuity -/
 
 /-- `"aag 3 1 1 1 1\n2\n4 6 1\n6\n6 2 4\ni0 x\nc\nhi\n"` -/
@@ -249,14 +260,5 @@ example : okVal ((parseAag ⟨8⟩).run (LR.init [97,97,103,32,51,32,48,32,48,32
     okVal ((parseAag ⟨8⟩).run (LR.init [97,97,103,32,49,50,56,32,48,32,48,32,48,32,48,10] false)) = none ∧
     okVal ((parseAag ⟨8⟩).run (LR.init [97,97,103,32,49,32,48,32,48,32,50,32,48,32,49,10,48,10,48,10,48,10,98,49,32,120,10] false)) = none := by
   decide +kernel
-
-/-! ### not yet proved -/
-
-/-- A decimal token denotes the number written: whenever `uint` returns `v`, the bytes it consumed
-are the canonical decimal text of `v` (no leading zero), and `v < 2^64`.  Needs C13 `digits_spec`
-composed with the leading-zero rule; not done. -/
-def aiger_uint_exact_full : Prop :=
-  ∀ (lr lr' : LR) (v : Nat), uint.run lr = (.ok (.ok v), lr') →
-    ∃ rest, lr.v.rest = Writer.natDigits v ++ rest ∧ lr'.v.rest = rest ∧ v < 2 ^ 64
 
 end Flussab.C06
